@@ -43,7 +43,7 @@ def show(E):
         return '%s(%s%s)' % (t, (E.get('s', '') + ';') if t == 'mono' else '', ks)
     if t in ('seq', 'par', 'chain'):
         return '%s(%s)' % (t, ', '.join(show(x) for x in E['l']))
-    return '%s(%s, %s)' % (t, E['x'], show(E['p']))
+    return '%s(%s%s, %s)' % (t, E['x'], (' tol %s' % E['tl']) if E.get('tl') else '', show(E['p']))
 
 
 def kinds(E, acc=None):
@@ -118,7 +118,7 @@ class Gen:
             ks.append(lst('note', lambda: V(64 * r.randint(-3, 14))))
         if r.random() < 0.3:
             ks.append(lst('harmonic', lambda: V(r.choice([16, 8, 4]))))
-        durs = [4, 8, 12, 16, 24, 32]
+        durs = r.choice([[4, 8, 12, 16, 24, 32], [4, 8, 12, 16, 24, 32], [3, 5, 6, 10, 9, 7]])     # the second kind is off the 0.001 s grid
         c = r.random()
         if c < 0.15 and not endless:
             ks.append(dict(k='dur', vs=[V(r.choice(durs)) for _ in range(n)], m='pconst', x=r.choice([12, 20, 40, 64])))
@@ -170,7 +170,7 @@ class Gen:
                                     for _ in range(r.randint(2, 4))])
         if c < 0.6:
             inner = b(endless=r.random() < 0.5) if r.random() < 0.5 else dict(t='par', l=[b(endless=r.random() < 0.4) for _ in range(2)])
-            return dict(t='dur', x=r.choice([6, 12, 20, 30, 44, 64]), p=inner)
+            return dict(t='dur', x=r.choice([6, 12, 20, 30, 44, 64, 17, 23]), p=inner, tl=r.choice([0, 0, 0, 4, 8, 16, 2]))
         if c < 0.68:
             return dict(t='delta', x=r.choice([0, 4, 12]), p=b())
         if c < 0.8:
@@ -181,7 +181,7 @@ class Gen:
             return self.mono()
         if c < 0.95:
             return dict(t='par', l=[self.mono(), b()])
-        return dict(t='dur', x=r.choice([12, 20, 36]), p=self.mono(endless=True))
+        return dict(t='dur', x=r.choice([12, 20, 36]), p=self.mono(endless=True), tl=r.choice([0, 0, 8]))
 
 
 # ------------------------------------------------------------------ running and judging
